@@ -240,6 +240,8 @@ class K:
         if self.kind == 'int':
             return f'(CInt {lit.z(self.v)})'
         if self.kind == 'slice':
+            if tuple(self.v) == (None, None, None):
+                return 'CAll'           # slice(None) IS the null slice for the implementation
             return f'(CSlice {lit.slice_(slice(*self.v))})'
         if self.kind in ('list', 'array'):
             return '(CList ' + lit.lst([lit.z(x) for x in self.v]) + ')'
